@@ -9,3 +9,7 @@ open RV.C05
 #print axioms pnlocal_roundtrip
 #print axioms resolve_relativize
 #print axioms escape_table_is_echar
+#print axioms utf8_decode_encode
+#print axioms utf8_encode_decode
+#print axioms input_source_equiv
+#print axioms bom_routes_differed_before_F14
